@@ -215,20 +215,49 @@ theorem c08_mergeF_leaf (n : Nat) (a : Node) (ha : plainT a = true) (env : Env) 
   cases a with
   | leaf fa ka =>
     simp only [mergeF, leafRule, Node.flags] at hp ⊢
-    simp [hp, Node.setFlags]
+    simp [hp, Node.setFlags, propagate]
   | comp fa ka ca =>
     obtain ⟨_, hk, _⟩ := plainT_comp ha
     simp only [Node.flags] at hp
     rcases hk with hk | ⟨hk, _⟩ <;> subst hk <;>
-      simp [mergeF, listMerge, compMerge, leafRule, Node.flags, hp, Node.setFlags]
+      simp [mergeF, listMerge, compMerge, leafRule, Node.flags, hp, Node.setFlags, propagate]
 
 /-- a mapping of the override document meeting a scalar: the scalar loses … -/
 theorem c08_mergeF_scalar_vs_map (n : Nat) (cf : Flags) (x : LeafKind) (hc : flagsPlain cf = true)
     (of : Flags) (ho : c08_docFlags of = true) (cs : List (Key × Node)) :
     mergeF (n + 1) (.leaf cf x) (.comp of .dict cs) =
-      .ok (.comp (replaceOtherFlags of cf) .dict cs, false) := by
+      .ok (propagate (.comp (replaceOtherFlags of cf) .dict cs), false) := by
   have hp := (c08_hasPrio_doc hc ho false).2
   simp [mergeF, leafRule, Node.flags, hp, Node.setFlags]
+
+/-- a child that has just been handed `implicit_allow_new = False` is `!notnew`-restricted -/
+theorem c08_eNew_applyKw (kw : ChildKw) (hk : kw.iNew = some false) (n : Node) :
+    eNew (applyKw kw n).flags = false := by
+  cases n with
+  | leaf f lk => simp [applyKw, Node.flags, updFlags, eNew, hk]
+  | comp f k cs =>
+    simp only [applyKw]
+    split
+    · split <;> simp [Node.flags, updFlags, eNew, hk]
+    · rename_i hc
+      have : f.iNew = kw.iNew := by
+        simp only [flagsChanged, Bool.or_eq_true, not_or, bne_iff_ne, ne_eq, Decidable.not_not] at hc
+        exact hc.1.2
+      simp [Node.flags, eNew, this, hk]
+
+/-- … and the mapping that took the scalar's place (its inherited flags re-propagated by
+    `_replace_other`) still forbids its first key as a new one -/
+theorem c08_reqNewBelow_propagate_blocked (F : Flags) (hF : F.new.or F.iNew = some false) (k2 : Key)
+    (o2 : Node) (rest : List (Key × Node)) :
+    reqNewBelow (propagate (.comp F .dict ((k2, o2) :: rest))) = some [k2] := by
+  have e := c08_eNew_applyKw
+    { iDel := F.del.or (F.iDel.or (if defaultDelete .dict then some true else none)),
+      iNew := F.new.or F.iNew, iSafe := F.safe.or F.iSafe } hF o2
+  simp only [propagate, childKw, applyKwList, reqNewBelow, reqNewList, List.nil_append]
+  generalize applyKw _ o2 = x at e ⊢
+  cases x with
+  | leaf f lk => simp only [Node.flags] at e; simp [reqNew, e]
+  | comp f kk cs => simp only [Node.flags] at e; simp [reqNew, e]
 
 theorem c08_mergeF_dict (n : Nat) (sf : Flags) (scs : List (Key × Node)) (o : Node) :
     mergeF (n + 1) (.comp sf .dict scs) o = compMerge (mergeF n) sf .dict scs o := rfl
@@ -408,12 +437,7 @@ theorem c08_override_missing (env : Env) (v : Scalar) : ∀ (pre : List Key) (k 
           simp only [List.nil_append, c08_nest]
           rw [c08_step_scalar_blocks (mergeF (n' + 1)) sf scs k0 _ _ _ [k] hl rfl
             (c08_mergeF_scalar_vs_map n' cf _ hcf _ (c08_docFlags_in env) _)]
-          simp only [reqNewBelow, reqNewList, List.nil_append]
-          have := c08_nestIn_eNew env post v
-          simp only [c08_nestIn] at this
-          cases hh : c08_nest (c08_inFlags env) env post v with
-          | leaf f lk => rw [hh] at this; simp only [Node.flags] at this; simp [reqNew, this]
-          | comp f kk cs => rw [hh] at this; simp only [Node.flags] at this; simp [reqNew, this]
+          exact c08_reqNewBelow_propagate_blocked _ rfl _ _ _
 
 /-! ### the loader builds `nestDoc` from the YAML representation of the override -/
 
